@@ -4,7 +4,7 @@ import numpy as np
 import torch
 
 from . import project, algrun
-from .g3run import rand_tt, dense_op, rel_err, mk_problem, check_tt, check_operands, TOL, U64, feasible_ranks
+from .g3run import rand_tt, raw_tt, dense_op, rel_err, mk_problem, check_tt, check_operands, TOL, U64, feasible_ranks
 
 
 # ------------------------------------------------------------------ systems named in the specification
@@ -73,7 +73,7 @@ def run_solve(st, opts):
     if cfg["guess"] in ("fresh", "reused"):
         g = rand_tt(tt, N, 1, gen, dt)
     elif cfg["guess"] == "big":
-        g = rand_tt(tt, N, 4, gen, dt)
+        g = raw_tt(tt, N, 4, gen, dt)
     objs, names = [A, b] + ([g] if g is not None else []), ["A", "b"] + (["x0"] if g is not None else [])
     prec = None if cfg["prec"] == "none" else cfg["prec"]
     use_cpp = cfg["backend"] == "cpp"
